@@ -6,11 +6,11 @@ cd /verif
 W=${1:-all}
 R=$(mktemp -d /tmp/regress.XXXXXX)
 if [ "$W" = seeded ] || [ "$W" = all ]; then
-  for d in seeded/C*/m*; do id=$(echo $d | cut -d/ -f2); k=$(basename $d); echo "$id /verif/$d/patch.diff $R/s.$id.$k"; done | xargs -P 10 -L 1 sh -c './seedeval.sh $0 $1 > $2.txt 2>&1'
+  for d in seeded/C*/m*; do id=$(echo $d | cut -d/ -f2); k=$(basename $d); echo "$id /verif/$d/patch.diff $R/s.$id.$k"; done | xargs -P 6 -L 1 sh -c './seedeval.sh $0 $1 > $2.txt 2>&1'
   echo "seeded changes NOT reported by their own property:"; for f in $R/s.*.txt; do grep -q "exit=1" $f || echo "  $(basename $f .txt)"; done
 fi
 if [ "$W" = neutral ] || [ "$W" = all ]; then
-  for d in neutral/C*/n*; do id=$(echo $d | cut -d/ -f2); k=$(basename $d); echo "$id /verif/$d/patch.diff $R/n.$id.$k"; done | xargs -P 10 -L 1 sh -c './seedeval.sh $0 $1 > $2.txt 2>&1'
+  for d in neutral/C*/n*; do id=$(echo $d | cut -d/ -f2); k=$(basename $d); echo "$id /verif/$d/patch.diff $R/n.$id.$k"; done | xargs -P 6 -L 1 sh -c './seedeval.sh $0 $1 > $2.txt 2>&1'
   echo "neutral refactorings that raise an alarm under their own property:"; for f in $R/n.*.txt; do grep -q "exit=0" $f || echo "  $(basename $f .txt): $(grep -o '\] R-[A-Z0-9-]*:[^ ]*' $f | sort -u | tr '\n' ' ' | cut -c1-200)"; done
 fi
 rm -rf $R
